@@ -53,37 +53,8 @@ theorem mass_eq_spec_partial (env : Env) (a : Annotation) (o : Opts)
     (hadd : o.adducts = none) (hadd' : a.adducts = none)
     (hdom : inDomain env a o.ion o.mono none = true) :
     mass env a o = .ok (roundOpt (specMassT lib env a o.ion
-      ((effCharge a o).getD 0) o.mono o.isotope o.loss none) o.precision) := by
-  unfold inDomain at hdom
-  simp only [Bool.and_eq_true] at hdom
-  obtain ⟨⟨⟨⟨hres, hoff⟩, hmods⟩, hstat⟩, _⟩ := hdom
-  have hB : a.seq.contains 'B' = false := by
-    cases hc : a.seq.contains 'B' with
-    | false => rfl
-    | true =>
-      have hm : 'B' ∈ a.seq := List.contains_iff_mem.mp hc
-      have := List.all_eq_true.mp hres 'B' hm
-      revert this; decide
-  have hZ : a.seq.contains 'Z' = false := by
-    cases hc : a.seq.contains 'Z' with
-    | false => rfl
-    | true =>
-      have hm : 'Z' ∈ a.seq := List.contains_iff_mem.mp hc
-      have := List.all_eq_true.mp hres 'Z' hm
-      revert this; decide
-  obtain ⟨v, hv⟩ := Option.isSome_iff_exists.mp hoff
-  unfold mass massWith resolveArgs effLabels
-  rw [hlab, hlab', hadd, hadd']
-  simp only [pure_bind', hB, hZ, Bool.false_eq_true, if_false]
-  unfold fastMass
-  rw [staticMass_ok env o.mono a hstat, bind_ok, residueMass_ok o.mono a.seq residue_table_ok hres, bind_ok,
-    placedModsMass_ok env o.mono a o.ion hmods, bind_ok, adjustMass_eq adjust_tables_ok _ _ _ _ _ _ _ v hv]
-  unfold specMassT
-  rw [hv]
-  simp only [Option.getD_some]
-  apply congrArg Except.ok
-  apply congrArg (fun q => roundOpt q o.precision)
-  ring
+      ((effCharge a o).getD 0) o.mono o.isotope o.loss none) o.precision) :=
+  mass_eq_spec_of_tables residue_table_ok adjust_tables_ok env a o hlab hlab' hadd hadd' hdom
 
 example : inDomain ⟨fun _ => ⟨.ok 1, .ok 1, .ok none, .ok []⟩, fun _ => .ok []⟩
     { seq := "PEPTIDE".toList, internal := some [(2, [⟨.int 7, 2⟩])] } 121 true none = true := by decide +kernel
